@@ -37,7 +37,7 @@ CLAIMED = {
          "Name section placed after the data section; GC-mode ambiguity between content-identical entities resolved in walrus's favour.",
          "DESIGN.md §4 C13"),
  'C14': ("exhaustive enumeration of the 2^5 switch combinations per generated input (proptest for inputs), metamorphic one-switch-at-a-time oracle",
-         "For each input all 32 configurations are run; outputs differing in one switch must differ exactly as documented (name / producers section removed and nothing else, .debug_* present iff DWARF on and present in the input, code-transform and only-stable flags neutral), producers content is preserved with exactly one walrus entry after 1-3 round trips, and an on_parse counter is 1 after Ok and 0 after Err (valid and mutated inputs) through ModuleConfig::parse, parse_file, Module::from_file_with_config and from_buffer_with_config, which must also agree on the output; configurations are reached through setter histories (each switch possibly set to the opposite value first, strict_validate toggled); Module::from_file / from_buffer / emit_wasm_file agree; producers added through the API are emitted next to the input's.",
+         "For each input all 32 configurations are run; outputs differing in one switch must differ exactly as documented (name / producers section removed and nothing else, .debug_* present iff DWARF on and present in the input, code-transform and only-stable flags neutral), producers content is preserved in both directions (nothing lost, nothing listed that the input did not list in that field) with exactly one walrus entry after 1-3 round trips, DWARF sections are attached in either order (optionally with an unreferenced .debug_str_offsets table) and the subprogram names read from the output's DWARF must equal the input's, and an on_parse counter is 1 after Ok and 0 after Err (valid and mutated inputs) through ModuleConfig::parse, parse_file, Module::from_file_with_config and from_buffer_with_config, which must also agree on the output; configurations are reached through setter histories (each switch possibly set to the opposite value first, strict_validate toggled); Module::from_file / from_buffer / emit_wasm_file agree; producers added through the API are emitted next to the input's.",
          "DWARF inputs are synthesized well-formed DWARF; arbitrary .debug_* bytes are only used with DWARF generation off.",
          "DESIGN.md §4 C14"),
  'C19': ("property-based generation (proptest), observation through on_parse and a spy CustomSection, decode + bijection oracle",
@@ -63,7 +63,7 @@ CLAIMED = {
          "DESIGN.md §4 C17"),
 
  'C05': ("mutation-based and random byte-string generation (proptest) with a differential oracle against wasmparser::Validator; child-process isolation for stack overflow",
-         "Random byte strings, byte- and structure-level mutants of generated and corpus modules, truncations, and deep-nesting modules are parsed under both configurations; any unwind is a violation, and walrus's accept/reject decision must equal the reference validator's under the feature set walrus documents for that configuration. Deep inputs are parsed (and emitted) on the 8 MiB main-thread stack of a child process: death by signal is a violation, a watchdog expiry is inconclusive. 'Never hangs' is only observable as that watchdog.",
+         "Random byte strings, byte- and structure-level mutants of generated and corpus modules, truncations, and deep-nesting modules are parsed under both configurations; any unwind is a violation, and walrus's accept/reject decision must equal the reference validator's under the feature set walrus documents for that configuration. Deep inputs are parsed (and emitted) on the 8 MiB main-thread stack of a child process: death by signal is a violation, a watchdog expiry is inconclusive. 'Never hangs' is judged by growth, not by time: a deep input that costs more than 3 s of the child's own CPU time is measured again at a quarter of the depth and a cost ratio above 10 (linear 4, quadratic 16) is a violation. The gate's configuration is reached directly, through clone() or through a setter history.",
          "The supported feature set is re-stated in the harness (optable::walrus_features); wasmparser is the arbiter of validity; OOM is not in scope.",
          "DESIGN.md §4 C05"),
 
@@ -85,7 +85,7 @@ CLAIMED = {
          "DESIGN.md §4 C20"),
 
  'C03': ("exhaustive operator enumeration + property-based generation, differential decode oracle (proptest)",
-         "Every operator wasmparser knows is enumerated with boundary immediates (exhaustive over that finite table) and round-tripped inside a rich host module; in addition thousands of generated full-profile modules, the repository fixtures and the real corpus are round-tripped. Input and output are decoded independently and compared operator by operator under a verified renumbering bijection. Exploration, not proof: absence is shown only over the enumerated table and the sampled modules.",
+         "Every operator wasmparser knows is enumerated with boundary immediates (exhaustive over that finite table) and round-tripped inside a rich host module; in addition thousands of generated full-profile modules, the repository fixtures, the real corpus and modules whose function body has a size on either side of every size-prefix boundary (127/128, 16383/16384, 2097151/2097152 bytes) are round-tripped; an eighth of the cases each judge the second emission of the same Module and an emission that records the code transform. Input and output are decoded independently and compared operator by operator under a verified renumbering bijection. Exploration, not proof: absence is shown only over the enumerated table and the sampled modules.",
          "Trusts wasmparser's binary reader and wasm-encoder's re-encoder for building inputs; the harness's canonicalisation (nop / dead-code removal, else insertion) re-states only what the property allows.",
          "DESIGN.md §4 C03, §3.1"),
  'C04': ("property-based generation (proptest) + corpus, differential decode oracle with verified bijection",
